@@ -176,7 +176,36 @@ def main(tier):
             cases.append(rel.case("ob%d_%d" % (k, u), a))
             cases.append(rel.case("op%d_%d" % (k, u), b))
             meta["op%d_%d" % (k, u)] = ("ob%d_%d" % (k, u), [1, 0], {"doc": [{"t": "raw"}]}, a, b)
+    ok1 = "GET /zk1\n  200 any\n"
+    ok2 = "POST /zk2\n  Request any\n  201 any\n"
+    okrpc = "URL /zkr\n  Protocol json-rpc-2.0\n  Method zm\n    Result\n    {}\n"
+    kernels = {
+        "request_headers_not_object": ["TYPE @zlist\n[\n  1\n]\n", ok1, "PUT /zk3\n  Request\n    Headers @zlist\n    Body any\n  200 any\n", okrpc],
+        "response_headers_not_object": ["TYPE @zlist\n[\n  1\n]\n", ok1, ok2, "GET /zk3\n  200\n    Headers @zlist\n    Body any\n"],
+        "response_headers_scalar": [ok1, "TYPE @zs\n  \"str\"\n", "GET /zk3\n  200\n    Headers @zs\n    Body any\n", okrpc],
+        "response_without_body": [ok1, ok2, "GET /zk3\n  200\n    Headers\n    {\n      \"h\": 1\n    }\n"],
+        "undefined_type_in_late_method": [ok1, ok2, "GET /zk3\n  200 @znosuch\n", "TYPE @zused any\n"],
+        "path_property_unused": [ok1, "GET /zk3/{a}\n  Path\n  {\n    \"a\": 1,\n    \"b\": 2\n  }\n  200 any\n", ok2],
+        "undeclared_tag": [ok1, "GET /zk3\n  Tags @znotag\n  200 any\n", ok2, "TAG @zother\n"],
+        "rpc_params_undefined": [ok1, "URL /zkq\n  Protocol json-rpc-2.0\n  Method zq\n    Params\n      @znosuch\n    Result\n    {}\n", ok2],
+    }
+    kern = {}
+    for kn, blocks in kernels.items():
+        for j, p in enumerate(itertools.permutations(range(len(blocks)))):
+            cid = "kn_%s_%d" % (kn, j)
+            text = "JSIGHT 0.3\n" + "".join(blocks[i] for i in p)
+            cases.append(rel.case(cid, text))
+            kern[cid] = (kn, list(p), text)
     obs = harness("run", cases)
+    for cid, (kn, p, text) in kern.items():
+        o = obs[cid]
+        chk.evaluations += 1
+        chk.traces += 1
+        chk.nontrivial.add(cid)
+        if o["outcome"] == "ok":
+            sig = {"what": "fault accepted in one order", "allof_depth": "0", "msg": kn}
+            chk.violation("blocks with one fault (%s) in the order %s are accepted; in other orders they are rejected | document:\n%s" % (kn, p, text),
+                          {"kind": "perm_faulty", "fault": {"f": kn}, "perm": p, "variant": text, "observed_variant": o, "signature": sig}, sig)
     for cid, (f, p, text) in faulty.items():
         o = obs[cid]
         chk.evaluations += 1
